@@ -7,6 +7,7 @@ mod batch;
 mod cli;
 mod cli_cli;
 mod gen;
+mod genselftest;
 mod giant;
 mod pma;
 mod rng;
@@ -55,6 +56,7 @@ fn main() {
         "lockstep" => threads_cli::cli_lockstep(&args[2..]),
         "cli" => cli_cli::cli(&args[2..]),
         "giant" => giant::cli(&args[2..]),
+        "gen-selftest" => genselftest::cli(&args[2..]),
         "images" => threads_cli::cli_images(&args[2..]),
         "image-of" => threads_cli::cli_image_of(&args[2..]),
         "replay" => {
